@@ -1550,6 +1550,13 @@ where
             )
             .await?;
 
+        if resp.skipped_empty {
+            // Nothing was sent to the subscriber, so this must not count as a
+            // report: the liveness clock keeps measuring from the last report
+            // that was actually sent.
+            rctx.set_not_sent();
+        }
+
         if !sub_valid {
             warn!(
                 "Subscription {:?} removed during reporting",
@@ -1883,6 +1890,9 @@ struct ReportDataResponder<'a, 'b, 'c, const NE: usize, C> {
     invoker: HandlerInvoker<'b, 'c, C>,
     event_reader: EventReader,
     events: &'a Events<NE>,
+    /// Set by `respond` when the report turned out to be empty and was therefore
+    /// not sent at all (only possible when it was called with `send_if_empty = false`).
+    skipped_empty: bool,
 }
 
 impl<'a, 'b, 'c, const NE: usize, C> ReportDataResponder<'a, 'b, 'c, NE, C>
@@ -1907,6 +1917,7 @@ where
             invoker,
             event_reader,
             events,
+            skipped_empty: false,
         }
     }
 
@@ -1950,6 +1961,8 @@ where
                 .await
         } else {
             debug!("No data to report, skipping sending ReportData response");
+
+            self.skipped_empty = true;
 
             Ok(true)
         }
